@@ -92,6 +92,38 @@ EXTRA = {
 }
 
 
+# flat lists: name -> (template, separator, item spellings); every program starts with the typedef of T
+LISTS = {
+    "params_proto": ("void f ( %s ) ;", " , ",
+                     ["int a", "int", "int *", "int ( * ) ( int )", "char ( * ) [ 4 ]", "int ( )", "int ( * p ) ( int )", "int a [ 3 ]",
+                      "struct S * s", "T", "T t", "int ( T )", "const int * const", "int [ ]", "int [ static 3 ]", "int ( * ( * ) ( void ) ) [ 2 ]"]),
+    "params_def": ("void f ( %s ) { }", " , ", ["int a", "int * a", "int ( * a ) ( int )", "T a", "int a [ ]", "struct S a"]),
+    "params_in_cast": ("int x = sizeof ( void ( * ) ( %s ) ) ;", " , ", ["int", "int ( * ) ( int )", "char ( * ) [ 4 ]", "int ( )", "T"]),
+    "args": ("void f ( void ) { g ( %s ) ; }", " , ",
+             ["1", "a", "( int ) a", "sizeof ( int )", "h ( 1 )", "a [ 1 ]", "( a , b )", "( int ) { 1 }", "\"s\"", "a ? b : c", "* p", "& a",
+              "- - a", "( T ) a", "( a )", "a . m"]),
+    "init_items": ("int x [ ] = { %s } ;", " , ", ["1", "{ 1 }", ". m = 1", "[ 1 ] = 2", "( int ) 1", "\"s\"", "{ 1 , 2 }", "a + b", "( T ) { 1 }"]),
+    "enumerators": ("enum E { %s } ;", " , ", ["A", "A = 1", "A = sizeof ( int )", "A = ( T ) 1"]),
+    "members": ("struct S { %s } ;", " ", ["int a ;", "int a : 3 ;", "int * a , b ;", "struct { int x ; } s ;", "int ( * f ) ( int ) ;", "T t ;",
+                                            "int : 2 ;", "union { int u ; } ;", "T ( * g ) ( T ) ;"]),
+    "declarators": ("int %s ;", " , ", ["a", "* a", "a [ 2 ]", "( * a ) ( int )", "a = 1", "a = { 1 }", "( a )", "a ( int ( * ) ( int ) )"]),
+    "block_items": ("void f ( void ) { %s }", " ", ["a = 1 ;", "int v = 1 ;", "if ( a ) b ;", "{ }", "g ( a ) ;", "T * p ;", "L : ;", "( T ) a ;",
+                                                      "return ;", "a * b ;", ";", "T ( q ) ;", "for ( int i = 0 ; ; ) ;", "sizeof ( T ) ;"]),
+    "externals": ("%s", " ", ["int a ;", "typedef int U ;", "void g ( void ) { }", "struct S { int a ; } ;", "int h ( int ) ;", "T x ;",
+                               "int ( * fp ) ( int ( * ) ( int ) ) ;", ";", "T * k ( T ) ;", "enum { A } ;"]),
+    "designators": ("int x [ ] = { %s = 1 } ;", " ", ["[ 1 ]", ". m", "[ 1 ] . m"]),
+    "qualifiers": ("%s int x ;", " ", ["const", "volatile", "const volatile"]),
+    "string_pieces": ("char * s = %s ;", " ", ["\"a\"", "L\"w\""]),
+    "case_labels": ("void f ( void ) { switch ( a ) { %s ; } }", " ", ["case 1 :", "default :", "case 1 : b ; break ;", "case ( T ) 1 :"]),
+}
+
+
+def flat(name, idx, k):
+    tmpl, sep, items = LISTS[name]
+    seq = [items[idx[j % len(idx)] - 1] for j in range(k * len(idx))]
+    return "typedef int T ; " + tmpl % sep.join(seq)
+
+
 def cost(src):
     """Deterministic step count: Python 'call' events inside pycparser while parsing src."""
     from pycparser import c_parser
@@ -123,6 +155,14 @@ def instantiate(cycle, k):
     return ROOT[nt] % (pre * k + BASE[nt] + post * k)
 
 
+def source(kind, payload, k):
+    if kind == "cycle":
+        return instantiate(payload, k)
+    if kind == "flat":
+        return flat(payload[0], payload[1], k)
+    return EXTRA[payload](k)
+
+
 def measure(args):
     """(name, sizes, kind, payload) -> (name, [(k, cost, ok)], c0)"""
     name, sizes, kind, payload = args
@@ -131,13 +171,12 @@ def measure(args):
     def go():
         res = []
         for k in sizes:
-            src = instantiate(payload, k) if kind == "cycle" else EXTRA[payload](k)
+            src = source(kind, payload, k)
             c, ok = cost(src)
             res.append((k, c, ok))
             if c > 1_200_000:
                 break
-        src0 = instantiate(payload, 0) if kind == "cycle" else EXTRA[payload](0)
-        out[0] = (name, res, cost(src0)[0])
+        out[0] = (name, res, cost(source(kind, payload, 0) if kind != "flat" else "typedef int T ;")[0])
 
     sys.setrecursionlimit(200000)
     threading.stack_size(512 * 1024 * 1024)
@@ -235,9 +274,10 @@ def run(tier):
     wd = workdir("c16")
     try:
         path, sub = mc_module(wd, "Families", dict(Pumps=[dict(n=p["n"], src=p["from"], dst=p["to"]) for p in PUMPS],
-                                                    MaxCycle=maxc))
+                                                    MaxCycle=maxc, MaxMix=2,
+                                                    Lists=[dict(n=n, items=len(LISTS[n][2])) for n in sorted(LISTS)]))
         cycles = []
-        res = tlc(path, sub + "INIT Init\nNEXT Next\nINVARIANT Simple\nINVARIANT Chained\nINVARIANT Export\nCHECK_DEADLOCK FALSE\n",
+        res = tlc(path, sub + "INIT Init\nNEXT Next\nINVARIANT Simple\nINVARIANT Chained\nINVARIANT ListSane\nINVARIANT Export\nINVARIANT ExportList\nCHECK_DEADLOCK FALSE\n",
                   wd=wd, on_export=cycles.append)
         tlc_ok(res, "Families")
         if res.violated:
@@ -247,6 +287,8 @@ def run(tier):
         rmtree(wd)
     # canonical rotation only
     fams = {}
+    flats = [c for c in cycles if "list" in c]
+    cycles = [c for c in cycles if "cyc" in c]
     for c in cycles:
         idx = c["cyc"]
         m = min(range(len(idx)), key=lambda j: idx[j:] + idx[:j])
@@ -264,8 +306,14 @@ def run(tier):
     jobs = [("+".join(p["n"] for p in fams[k]), [max(2, s // len(k)) * 1 for s in sizes] if False else sizes, "cycle", fams[k]) for k in keys]
     esizes = [32, 64, 128] if tier == "quick" else [64, 128, 256, 512]
     jobs += [(n, esizes, "extra", n) for n in sorted(EXTRA)]
+    singles = [f for f in flats if len(f["items"]) == 1]
+    mixes = [f for f in flats if len(f["items"]) == 2]
+    mixes = rnd.sample(mixes, min(len(mixes), 120 if tier == "quick" else 2000))
+    fsizes = [24, 48, 96] if tier == "quick" else [32, 64, 128, 256]
+    jobs += [("%s[%s]" % (f["list"], " | ".join(LISTS[f["list"]][2][i - 1] for i in f["items"])), fsizes, "flat", (f["list"], f["items"]))
+             for f in singles + mixes]
     ctx.cov["rule"] = ("families = simple cycles of the pump table of Families.tla (nesting and repetition constructs and their "
-                       "nestings) plus %d repetition/declarator families; each measured at doubling sizes by counting Python call "
+                       "nestings), the flat lists of Families.tla (every list construct x every item spelling, and alternations of two) plus %d repetition/declarator families; each measured at doubling sizes by counting Python call "
                        "events inside pycparser; a case is one (family, size)" % len(EXTRA))
     from ..common import pool
     results = pool().map(measure, jobs, chunksize=2)
@@ -275,8 +323,7 @@ def run(tier):
         nmeas += len(res)
         d = judge(name, res, c0)
         if d:
-            ctx.fail("family %s: %s" % (name, d), dict(kind="family", name=name,
-                                                          text=(instantiate(job[3], 4) if job[2] == "cycle" else EXTRA[job[3]](4))))
+            ctx.fail("family %s: %s" % (name, d), dict(kind="family", name=name, text=source(job[2], job[3], 4)))
         oks = [r for r in res if r[2] == "ok"]
         if len(oks) >= 2:
             worst.append((round((oks[-1][1] - c0) / max(1, oks[-2][1] - c0), 2), name))
@@ -287,7 +334,7 @@ def run(tier):
     # code -> spec: ReconsumptionBound on traces of mid-size instances
     traces, names = [], []
     for name, sz, kind, payload in rnd.sample(jobs, min(len(jobs), 60 if tier == "quick" else 400)):
-        src = instantiate(payload, 6) if kind == "cycle" else EXTRA[payload](6)
+        src = source(kind, payload, 6)
         if ptrace.ascii_ok(src):
             tr, ast, exc = ptrace.record(src, "f.c")
             if ast is not None:
